@@ -501,9 +501,8 @@ theorem validF_tail (f : Nat) : ∀ s, validF f s = true → List.foldl tailStep
       · rw [decodeRune_ascii c rest hc] at h
         have hne : c ≠ 0xE2 := by intro e; subst e; simp at hc
         have hv : validF f rest = true := by
-          have : ¬ ((c.toNat == runeError && (1 : Nat) == 1) = true) := by
-            simp [runeError]; omega
-          simpa [this] using h
+          have h' : ¬ c.toNat = runeError ∧ validF f rest = true := by simpa using h
+          exact h'.2
         rw [List.foldl_cons, tailStep_str_of _ _ hstr hne]
         exact ih rest hv
       · rcases decodeRune_cases c rest (by omega) with hd | ⟨b1, t, hr, hc1, hge, hle, hd⟩ |
